@@ -187,7 +187,7 @@ def goal_dof_passive(spec, pre, post):
   qp = lambda i: float(_at(pre["qpos_in"], (w, i)))
   qs = lambda i: float(_b(pre, "qpos_spring", w, i))
   for i in range(nd):
-    want = 0.0 if (flags & D) else float(ref_damper(float(_b(pre, "dof_damping", w, da)), [float(x) for x in _b(pre, "dof_dampingpoly", w, da)], qv(da + i)))
+    want = 0.0 if (flags & D) else float(ref_damper(float(_b(pre, "dof_damping", w, da + i)), [float(x) for x in _b(pre, "dof_dampingpoly", w, da + i)], qv(da + i)))
     got = float(_at(post["qfrc_damper_out"], (w, da + i)))
     if not lib.approx(got, want):
       msgs.append(f"qfrc_damper[{da + i}] = {got} expected {want}")
@@ -239,7 +239,6 @@ def unit_dof_passive(jt, sp_off, dm_off):
     vbv = lambda lab, *idx: list(kt.prev(lab, arith("%", w, kt.cell(lab).shape[0]), *idx).c)
     qa, da = kt.pre("jnt_qposadr", j), kt.pre("jnt_dofadr", j)
     kst, sp = vb("jnt_stiffness", j), vbv("jnt_stiffnesspoly", j)
-    dmp, dp = vb("dof_damping", da), vbv("dof_dampingpoly", da)
     spring_off, damper_off = bool(sp_off), bool(dm_off)
     tag = f"spring{'off' if sp_off else 'on'}-damper{'off' if dm_off else 'on'}"
     # per-world batched Model fields have at least one row (mjModel invariant; also keeps `worldid % shape[0]` defined in replays)
@@ -258,6 +257,8 @@ def unit_dof_passive(jt, sp_off, dm_off):
 
     for i in range(nd):
       v = kt.pre("qvel_in", w, arith("+", da, i))
+      # dof_damping / dof_dampingpoly are PER-DOF fields (mj_passive uses dof i's own coefficients, also inside ball / free joints)
+      dmp, dp = vb("dof_damping", arith("+", da, i)), vbv("dof_dampingpoly", arith("+", da, i))
       want = ite(damper_off, 0.0, o.a("*", arith("*", v, -1), pf(dmp, dp, v, True)))
       qs.append(dict(name=f"{tag}/damper[{i}]", goal=cmp("==", kt.post("qfrc_damper_out", w, arith("+", da, i)), want), names=names, replay=rp, desc=f"_spring_damper_dof_passive (joint type {jt}): damper force of dof {i} differs from -v (d + p0 |v| + p1 v^2) / 0 when disabled"))
     if exact:
